@@ -1,9 +1,12 @@
 //! rvharness — correspondence harness: drives the REAL redis-rust code in-process, writes the
 //! op lines for the Lean model driver and the implementation's canonical answers, and
 //! evaluates each property directly on the implementation (failing-input search).
+mod c01;
 mod c07;
+mod c17;
 mod enc;
 mod out;
+mod redisx;
 mod rng;
 
 use std::path::PathBuf;
@@ -48,7 +51,9 @@ fn main() {
     }
     // the real code logs through `tracing`; keep stdout/stderr quiet
     match prop.as_str() {
+        "C01" => c01::run(&a),
         "C07" => c07::run(&a),
+        "C17" => c17::run(&a),
         _ => {
             eprintln!("no harness for {}", prop);
             std::process::exit(2);
